@@ -853,7 +853,7 @@ class ClassAttributeChecker:
             if self.serialize_type(typ) not in self.classes_examined:
                 continue
             existing_attrs = set(typ.__dict__.keys())
-            for attr in existing_attrs - attrs_read - ignored:
+            for attr in sorted(existing_attrs - attrs_read - ignored):
                 # server calls will always show up as unused here
                 if safe_getattr(safe_getattr(typ, attr, None), "server_call", False):
                     continue
@@ -2399,9 +2399,18 @@ class NameCheckVisitor(node_visitor.ReplacingNodeVisitor):
             chain.from_iterable(scope.usage_to_definition_nodes.values())
         )
         all_unused_nodes = all_def_nodes - all_used_def_nodes
-        for unused in all_unused_nodes:
-            # Ignore names not defined through a Name node (e.g., function arguments)
-            if not isinstance(unused, ast.Name) or not self._is_write_ctx(unused.ctx):
+        # Ignore names not defined through a Name node (e.g., function arguments).
+        # Sort by position so that errors are emitted in a deterministic order.
+        unused_names = sorted(
+            (node for node in all_unused_nodes if isinstance(node, ast.Name)),
+            key=lambda node: (
+                getattr(node, "lineno", 0),
+                getattr(node, "col_offset", 0),
+                node.id,
+            ),
+        )
+        for unused in unused_names:
+            if not self._is_write_ctx(unused.ctx):
                 continue
             # Ignore names that are meant to be ignored
             if unused.id.startswith("_"):
